@@ -234,3 +234,30 @@ Section Epochs.
         end
     end.
 End Epochs.
+
+(** The size guard of the public API (src/myth_sched_func.h, commit a6d2bdf):
+      #define MYTH_STACK_SIZE_MAX ((size_t)1 << (FREE_LIST_NUM - 1))
+      myth_thread_attr_setstacksize_body / _setstack_body:
+          if (stacksize > MYTH_STACK_SIZE_MAX) return EINVAL;   attr->stacksize = stacksize;  return 0;
+      myth_create_ex_body:   stack_size = attr ? attr->stacksize : 0;
+          if (stack_size > MYTH_STACK_SIZE_MAX) return EINVAL;        (before anything is allocated)
+    The error branch is part of the model: [attr_setstacksize] returns the return code and the
+    attribute's field afterwards; [create_stack] is the stack side of a creation with a given
+    attribute value ([CEinval]: nothing was obtained, the allocator state is untouched). *)
+Definition EINVAL : Z := 22.
+Definition MYTH_STACK_SIZE_MAX : Z := Z.shiftl 1 (FREE_LIST_NUM - 1).
+
+Definition attr_setstacksize (old s : Z) : Z * Z :=
+  if s >? MYTH_STACK_SIZE_MAX then (EINVAL, old) else (0, s).
+
+Inductive cresult :=
+| CEinval
+| CCreated (top : Z) (st : sstate)
+| CFailed (r : sresult).      (* the unguarded arithmetic left its range: cannot happen, see StackProofs *)
+
+Definition create_stack (mmap : list region -> Z -> Z) (gsz : Z) (st : sstate) (w : nat) (attr_ss : Z) : cresult :=
+  if attr_ss >? MYTH_STACK_SIZE_MAX then CEinval
+  else match stack_get mmap gsz st w attr_ss with
+       | SOk top st' => CCreated top st'
+       | r => CFailed r
+       end.
